@@ -709,7 +709,7 @@ func runC08(w *W) {
 	swI64KeyQuoted := t.Chance(1, 12, "sw.i64keyquoted")
 
 	so := pgenOpts{MaxMsgs: 1 + t.Intn(4, "sch.msgs"), MaxFields: 1 + t.Intn(8, "sch.fields"), BigNums: t.Chance(1, 3, "sch.bignums"), HugeNums: t.Chance(1, 8, "sch.hugenums"),
-		Recursive: t.Chance(1, 3, "sch.rec"), JSONNames: t.Chance(1, 3, "sch.jsonnames"), Enums: t.Chance(1, 2, "sch.enums"), SharedNumbers: swShared}
+		Recursive: t.Chance(1, 3, "sch.rec"), JSONNames: t.Chance(1, 3, "sch.jsonnames"), Enums: t.Chance(1, 2, "sch.enums"), SharedNumbers: swShared, UnpackedScalars: t.Chance(1, 4, "sch.unpacked")}
 	if swOddKeys {
 		so.KeyKinds = append(append([]pKind{}, plainKeyKinds...), oddKeyKinds...)
 	}
